@@ -155,6 +155,17 @@ var restoreCmd = &cobra.Command{
 					paths = append(paths, string(entry.Path))
 					isAdded[string(entry.Path)] = struct{}{}
 				}
+				if cleanedArg == "." {
+					// the root of the snapshot is not a node: every path of HEAD lies beneath it
+					for _, child := range tree.Children {
+						for _, path := range child.GetPaths() {
+							if _, ok := isAdded[path]; !ok {
+								paths = append(paths, path)
+								isAdded[path] = struct{}{}
+							}
+						}
+					}
+				}
 				if isNodeFound {
 					// node.GetPaths returns paths which start with the node name
 					// so, add the parent directory of the node
